@@ -20,6 +20,7 @@ def run(ctx):
     ctx.do(SI.rule_eig1, only={"Hyperplane.from_reflection", "Isometry._fixpoint_data"})
     ctx.do(SH.rule_ax1, [SH.CORE, H.HYP], scope=ctx.scope(ENTRIES))
     ctx.do(SI.rule_ref1)
+    ctx.do(MI.rule_nanflow1)
     ctx.do(SI.rule_flip1)
     ctx.do(MI.rule_sgn1, [H.HYP, "geometry_tools/utils/core.py"])
     ctx.do(DT.rule_cx1, [H.HYP])
